@@ -304,7 +304,7 @@ impl Tree {
         self.th(0, self.full_leaves(), h)
     }
 
-    fn th(&self, lo: u32, hi: u32, h: HashAlg) -> Vec<u8> {
+    pub fn th(&self, lo: u32, hi: u32, h: HashAlg) -> Vec<u8> {
         let mut input = vec![];
         if hi - lo == 1 {
             input.push(1u8);
